@@ -233,6 +233,7 @@ func checkC17(c *Ctx) {
 	checkNoopDeletes(c, "C17.R6.collection", pk)
 	checkSplitURL(c, pk)
 	checkResponsePrecedence(c, pk)
+	checkLoopTotality(c, "C17.R7.loop-totality", pk, "codescan", 40, codescanLoopExits)
 
 	// ---- R2 regexp arity; R4 tagger agreement
 	taggers := collectTaggers(c, pk, m)
@@ -882,4 +883,41 @@ func checkSplitURL(c *Ctx, pk *packages.Package) {
 	})
 	c.Check(seen && okFirst && okSecond, rule, "codescan.splitURL › a line without URL is a name, not a URL", c.posOf(pk, fd.Pos()), "no-match arm: text → first result, second result empty",
 		"when the URL pattern does not match, splitURL does not return (text, \"\"): `License: MIT` or `Contact: Name <email>` end up in the url field and the document is not valid Swagger")
+}
+
+// codescanLoopExits: the reviewed early exits of the scanner's loops over struct fields, interface
+// methods, packages and spec collections.
+var codescanLoopExits = map[string]string{
+	"codescan.parameterBuilder.buildFromStruct › loop over types.Struct.NumFields #1 › continue #1":             "embedded struct: its fields were just collected by the recursive buildFromType call",
+	"codescan.parameterBuilder.buildFromStruct › loop over types.Struct.NumFields #1 › continue #2":             "unexported field: not part of the parameter set",
+	"codescan.parameterBuilder.buildFromStruct › loop over types.Struct.NumFields #1 › continue #3":             "no syntax found for the field (declared in a file that was not parsed): nothing to read annotations from (logged)",
+	"codescan.parameterBuilder.buildFromStruct › loop over types.Struct.NumFields #1 › continue #4":             "field annotated swagger:ignore",
+	"codescan.parameterBuilder.buildFromStruct › loop over types.Struct.NumFields #1 › continue #5":             "field tagged json:\"-\"",
+	"codescan.responseBuilder.buildFromStruct › loop over types.Struct.NumFields #1 › continue #1":              "embedded struct: its fields were just collected by the recursive buildFromType call",
+	"codescan.responseBuilder.buildFromStruct › loop over types.Struct.NumFields #1 › continue #2":              "unexported field: not part of the response header set",
+	"codescan.responseBuilder.buildFromStruct › loop over types.Struct.NumFields #1 › continue #3":              "no syntax found for the field (declared in a file that was not parsed): nothing to read annotations from (logged)",
+	"codescan.responseBuilder.buildFromStruct › loop over types.Struct.NumFields #1 › continue #4":              "field annotated swagger:ignore",
+	"codescan.responseBuilder.buildFromStruct › loop over types.Struct.NumFields #1 › continue #5":              "field tagged json:\"-\"",
+	"codescan.parameterBuilder.buildFromStruct › loop over spec.Parameter #1 › break #1":                        "re-ordering pass: the parameter named k was found and removed from its old position",
+	"codescan.schemaBuilder.buildFromStruct › loop over types.Struct.NumFields #1 › continue #1":                "first pass looks at embedded fields only",
+	"codescan.schemaBuilder.buildFromStruct › loop over types.Struct.NumFields #1 › continue #2":                "no syntax found for the embedded field (logged)",
+	"codescan.schemaBuilder.buildFromStruct › loop over types.Struct.NumFields #1 › continue #3":                "embedded field annotated swagger:ignore",
+	"codescan.schemaBuilder.buildFromStruct › loop over types.Struct.NumFields #1 › continue #4":                "embedded field tagged json:\"-\"",
+	"codescan.schemaBuilder.buildFromStruct › loop over types.Struct.NumFields #1 › continue #5":                "embedded field named by its json tag: described as a property by the second pass",
+	"codescan.schemaBuilder.buildFromStruct › loop over types.Struct.NumFields #1 › continue #6":                "embedded field without swagger:allOf: its properties were just inlined by buildEmbedded",
+	"codescan.schemaBuilder.buildFromStruct › loop over types.Struct.NumFields #2 › continue #1":                "second pass: embedded fields without a tag name were handled by the first pass",
+	"codescan.schemaBuilder.buildFromStruct › loop over types.Struct.NumFields #2 › continue #2":                "unexported field: encoding/json does not write it",
+	"codescan.schemaBuilder.buildFromStruct › loop over types.Struct.NumFields #2 › continue #3":                "no syntax found for the field (logged)",
+	"codescan.schemaBuilder.buildFromStruct › loop over types.Struct.NumFields #2 › continue #4":                "field annotated swagger:ignore",
+	"codescan.schemaBuilder.buildFromStruct › loop over types.Struct.NumFields #2 › continue #5":                "field tagged json:\"-\" (the promoted property of the same Go name, if any, was removed just above)",
+	"codescan.schemaBuilder.buildFromInterface › loop over types.Interface.NumEmbeddeds #1 › continue #1":       "no syntax found for the embedded interface (logged)",
+	"codescan.schemaBuilder.buildFromInterface › loop over types.Interface.NumEmbeddeds #1 › continue #2":       "embedded interface annotated swagger:ignore",
+	"codescan.schemaBuilder.buildFromInterface › loop over types.Interface.NumEmbeddeds #1 › continue #3":       "embedded interface without swagger:allOf: its methods were just inlined by buildEmbedded",
+	"codescan.schemaBuilder.buildFromInterface › loop over types.Interface.NumExplicitMethods #1 › continue #1": "unexported method",
+	"codescan.schemaBuilder.buildFromInterface › loop over types.Interface.NumExplicitMethods #1 › continue #2": "not a method signature",
+	"codescan.schemaBuilder.buildFromInterface › loop over types.Interface.NumExplicitMethods #1 › continue #3": "method with parameters: not a getter, not a property",
+	"codescan.schemaBuilder.buildFromInterface › loop over types.Interface.NumExplicitMethods #1 › continue #4": "method without exactly one result: not a getter",
+	"codescan.schemaBuilder.buildFromInterface › loop over types.Interface.NumExplicitMethods #1 › continue #5": "no syntax found for the method (logged)",
+	"codescan.schemaBuilder.buildFromInterface › loop over types.Interface.NumExplicitMethods #1 › continue #6": "method annotated swagger:ignore",
+	"codescan.typeIndex.build › loop over packages.Package #1 › continue #1":                                    "package already registered and processed",
 }
